@@ -610,6 +610,27 @@ theorem runPass_PND (p : PassT) (c : Ctx) (fuel : Nat) (h : WF c.seg) (hF : Fore
         rw [noteLoop_seg]
         exact ruleLoop_PND p _ _ s0 _ 0 j0 (show Forest (c.restartAt s0).seg from hF) (show PND (c.restartAt s0).seg from hP) hr
 
+/-- reversing the stream keeps "parents are not deleted" -/
+theorem reverse_PND {s : Seg} (h : PND s) (mark : Nat → Bool) : PND (s.reverseSlots mark) := by
+  have hs := reverseSlots_same s mark
+  have hf : ∀ j, ((s.reverseSlots mark).get j).parent = (s.get j).parent ∧ ((s.reverseSlots mark).get j).copied = (s.get j).copied ∧
+      ((s.reverseSlots mark).get j).deleted = (s.get j).deleted := fun j => by
+    have := hs.slot j; unfold LinkOnly at this; rw [this]; exact ⟨rfl, rfl, rfl⟩
+  refine h.frame (fun j hj => ?_) (fun j p hj hjp => ?_)
+  · unfold Real at hj ⊢; rw [← (hf j).2.1]; exact hj
+  · exact ⟨by rw [← (hf j).1]; exact hjp, (hf p).2.2⟩
+
+theorem runPassDir_PND (p : PassT) (c : Ctx) (fuel : Nat) (h : WF c.seg) (hF : Forest c.seg) (hP : PND c.seg) {c' : Ctx}
+    (e : runPassDir p c fuel = .ok (some c')) : PND c'.seg := by
+  unfold runPassDir at e
+  split at e
+  · cases e; exact hP
+  · simp only [] at e
+    split at e
+    · exact runPass_PND p (c.withSeg (c.seg.reverseSlots (isMark c c.seg))) fuel (reverse_wf h _) (forest_congr (reverse_treeSame _ _) hF)
+        (reverse_PND hP _) e
+    · exact runPass_PND p c fuel h hF hP e
+
 theorem runRange_PND (passes : Array PassT) (c : Ctx) (lo hi fuel : Nat) (h : WF c.seg) (hF : Forest c.seg) (hP : PND c.seg) {c' : Ctx}
     (e : runRange passes c lo hi fuel = .ok (some c')) : PND c'.seg := by
   unfold runRange at e
@@ -625,7 +646,7 @@ theorem runRange_PND (passes : Array PassT) (c : Ctx) (lo hi fuel : Nat) (h : WF
       ∀ x, ks.foldl (fun (acc : Except String (Option Ctx)) k =>
         match acc with
         | .ok (some c1) =>
-          (match runPass (passes.getD (lo + k) default) c1 fuel with
+          (match runPassDir (passes.getD (lo + k) default) c1 fuel with
            | .ok (some c2) => if c2.seg.numGlyphs > 0 ∧ c2.seg.numGlyphs > c.seg.numGlyphs * 64 then .ok none else .ok (some c2)
            | o => o)
         | o => o) acc = .ok (some x) → WF x.seg ∧ Forest x.seg ∧ PND x.seg := by
@@ -645,7 +666,7 @@ theorem runRange_PND (passes : Array PassT) (c : Ctx) (lo hi fuel : Nat) (h : WF
           · cases hy
           · cases hy
             have a := ha c1 rfl
-            exact ⟨runPass_spec _ c1 fuel a.1 hp, runPass_forest _ c1 fuel a.1 a.2.1 hp, runPass_PND _ c1 fuel a.1 a.2.1 a.2.2 hp⟩
+            exact ⟨runPassDir_spec _ c1 fuel a.1 hp, runPassDir_forest _ c1 fuel a.1 a.2.1 hp, runPassDir_PND _ c1 fuel a.1 a.2.1 a.2.2 hp⟩
         · rename_i o hno
           exact absurd hy (by
             intro hh
@@ -679,10 +700,10 @@ theorem reassoc_PND {seg seg' : Seg} {n : Nat} {ci : List Assoc.CI} (h : PND seg
     exact foldl_upd_PND (fun (x : Nat × Int × Int) => x.1) (fun x sl => (sl.setBefore x.2.1).setAfter x.2.2)
       (fun _ _ => ⟨rfl, rfl, rfl⟩) _ _ h
 
-theorem initSeg_allIso (font : Font) (text : List Nat) : AllIso (initSeg font text) := by
+theorem initSeg_allIso (font : Font) (text : List Nat) (dir : Nat := 0) : AllIso (initSeg font text dir) := by
   unfold initSeg
   simp only []
-  have h0 : AllIso ({ numGlyphs := text.length, numChars := text.length, slots := Array.replicate (text.length + 10) ({} : Slot), free := List.range (text.length + 10), bufSize := Nat.log2 text.length + 1 } : Seg) := by
+  have h0 : AllIso ({ numGlyphs := text.length, numChars := text.length, slots := Array.replicate (text.length + 10) ({} : Slot), free := List.range (text.length + 10), bufSize := Nat.log2 text.length + 1, dir := dir } : Seg) := by
     intro j
     rw [get_replicate_default (text.length + 10) j _ rfl]
     exact ⟨rfl, rfl, rfl, rfl⟩
@@ -694,8 +715,8 @@ theorem initSeg_allIso (font : Font) (text : List Nat) : AllIso (initSeg font te
     | cons x rest ih => intro s h; exact ih _ (appendSlot_allIso h _ _ _ _)
   exact this _ _ h0
 
-theorem shape_PND (font : Font) (text : List Nat) (fuel : Nat) {c : Ctx} {ci : List Assoc.CI}
-    (e : shape font text fuel = .ok (some (c, ci))) : PND c.seg := by
+theorem shape_PND (font : Font) (text : List Nat) (fuel : Nat) (dir : Nat) {c : Ctx} {ci : List Assoc.CI}
+    (e : shape font text fuel dir = .ok (some (c, ci))) : PND c.seg := by
   unfold shape at e
   split at e
   · simp only [Except.ok.injEq, Option.some.injEq, Prod.mk.injEq] at e
@@ -707,9 +728,9 @@ theorem shape_PND (font : Font) (text : List Nat) (fuel : Nat) {c : Ctx} {ci : L
     · cases e
     · cases e
     · rename_i c1 h1
-      have hw0 := initSeg_wf font text
-      have hf0 := initSeg_forest font text
-      have hp0 := pnd_of_allIso (initSeg_allIso font text)
+      have hw0 := initSeg_wf font text dir
+      have hf0 := initSeg_forest font text dir
+      have hp0 := pnd_of_allIso (initSeg_allIso font text dir)
       have w1 := runRange_spec _ _ _ _ _ hw0 h1
       have f1 := runRange_forest _ _ _ _ _ hw0 hf0 h1
       have p1 := runRange_PND _ _ _ _ _ hw0 hf0 hp0 h1
@@ -729,12 +750,12 @@ theorem shape_PND (font : Font) (text : List Nat) (fuel : Nat) {c : Ctx} {ci : L
 
 /-- **C04: attachments stay inside the segment.** In every segment the modelled pipeline returns, a slot of the stream that
 is attached is attached to a slot of the stream. -/
-theorem shape_parents_in_stream (font : Font) (text : List Nat) (fuel : Nat) {c : Ctx} {ci : List Assoc.CI}
-    (e : shape font text fuel = .ok (some (c, ci))) :
+theorem shape_parents_in_stream (font : Font) (text : List Nat) (fuel : Nat) (dir : Nat) {c : Ctx} {ci : List Assoc.CI}
+    (e : shape font text fuel dir = .ok (some (c, ci))) :
     ∃ l, Linked c.seg l ∧ Clean c.seg l ∧ ∀ j ∈ l, ∀ p, (c.seg.get j).parent = some p → p ∈ l := by
-  obtain ⟨l, hl, hc, hal⟩ := shape_wf font text fuel e
-  have hF := shape_forest font text fuel e
-  have hP := shape_PND font text fuel e
+  obtain ⟨l, hl, hc, hal⟩ := shape_wf font text fuel dir e
+  have hF := shape_forest font text fuel dir e
+  have hP := shape_PND font text fuel dir e
   refine ⟨l, hl, hc, fun j hj p hp => ?_⟩
   have hjr : Real c.seg j := (hc.live j hj).2
   have h1 := hF.par j p hjr hp
